@@ -40,6 +40,9 @@ type pmsg struct {
 	NilDuty       bool
 	NilSet        bool
 	ViaBroadcast  bool // sent by a real ParSigEx of the sender (baseline only)
+	// Fault: 1 = the stream-handler context is done after the duty was gated, before verification;
+	// 2 = it ends inside the first signature verification. 0 = live context.
+	Fault int32
 	MustAdmit     bool
 }
 
@@ -126,6 +129,31 @@ func (e *env) sendPeer(w *world, m *pmsg) (out peerOutcome, skip string) {
 	}
 	if m.NilSet {
 		msg.DataSet = nil
+	}
+
+	if m.Fault != 0 {
+		// dead-context delivery: serialised like every other injection, because the handler errors it
+		// logs would otherwise be attributed to another world's message.
+		e.peerMu.Lock()
+		defer e.peerMu.Unlock()
+		sub := &submission{}
+		w.clockOffset.Store(int64(m.Clock))
+		w.faultSub.Store(sub)
+		w.faultMode.Store(m.Fault)
+		func() {
+			defer func() {
+				if r := recover(); r != nil {
+					out.Panic = fmt.Sprint(r)
+				}
+			}()
+			_, out.Handled = w.net.Inject(w.peers[m.From-1], w.faultPeer, protocol.ID(parsigex.Protocols()[0]), msg)
+		}()
+		w.faultMode.Store(0)
+		w.faultSub.Store(nil)
+		w.clockOffset.Store(0)
+		out.Admitted = sub.snapshot()
+
+		return out, ""
 	}
 
 	e.peerMu.Lock()
@@ -481,6 +509,45 @@ func (e *env) runPeer(c *kit.Case, w *world, tg target) {
 		}
 	}
 
+	// 8. fault injection: re-deliver a sample of the invalid (and two valid) messages to a second
+	// real ParSigEx of the node whose stream-handler context is done by the time the set is verified.
+	{
+		nFault := 10
+		if r.Thorough() {
+			nFault = 30
+		}
+		var faults []*pmsg
+		mode := int32(1)
+		for _, pi := range rng.Perm(len(msgs)) {
+			a := msgs[pi]
+			if a.ViaBroadcast || a.Clock != 0 || a.NilDuty || a.NilSet || len(a.Entries) == 0 {
+				continue
+			}
+			ok := false
+			for _, pre := range []string{"leaf", "sig-", "pubkey-", "share-index-", "multi-", "batch:", "duty-type-mismatch"} {
+				ok = ok || strings.HasPrefix(a.Class, pre)
+			}
+			if !ok {
+				continue
+			}
+			f := *a
+			f.Class, f.Fault = "ctx-done:"+a.Class, mode
+			if len(faults)%4 == 3 {
+				f.Fault = 2
+			}
+			faults = append(faults, &f)
+			if len(faults) >= nFault {
+				break
+			}
+		}
+		for _, encn := range []string{"ssz", "json"} {
+			f := newMsg("ctx-done:valid", "valid message, handler context done", entryOf(v, base, share))
+			f.Entries[0].Enc, f.Fault = encn, mode
+			faults = append(faults, f)
+		}
+		msgs = append(msgs, faults...)
+	}
+
 	classes := map[string]bool{}
 	mustRejectSeen, validOK := 0, 0
 	for _, m := range msgs {
@@ -493,6 +560,7 @@ func (e *env) runPeer(c *kit.Case, w *world, tg target) {
 			validOK++
 		}
 	}
+	r.Count("peer_verifications_started_with_done_context", w.ctxDead.Load())
 	if validOK > 0 && mustRejectSeen > 0 {
 		c.NonTrivial(kit.Hash(tg.Name, k.String(), w.n, w.k, w.shareIdx, from, len(classes), mustRejectSeen))
 	}
@@ -608,7 +676,7 @@ func (e *env) judgePeer(c *kit.Case, w *world, tg target, k kind, m *pmsg, baseI
 		return map[string]any{
 			"target": tg.Name, "kind": k.String(), "class": m.Class, "detail": m.Detail, "classification": cls,
 			"n": w.n, "k": w.k, "node_share_idx": w.shareIdx, "sender_peer": m.From, "signer": baseV.Name,
-			"wire_duty": fmt.Sprintf("%d/%d", m.DutySlot, m.DutyType), "clock_offset": m.Clock.String(), "current_epoch": w.currentEpoch,
+			"handler_context_fault": m.Fault, "wire_duty": fmt.Sprintf("%d/%d", m.DutySlot, m.DutyType), "clock_offset": m.Clock.String(), "current_epoch": w.currentEpoch,
 			"handler_errors": out.Errors, "panic": out.Panic, "send_error": out.SendErr, "admitted": adm, "alt_index": m.AltIdx, "alt_indices": m.AltIdxs, "entries": ents,
 		}
 	}
@@ -722,12 +790,15 @@ func (e *env) judgePeer(c *kit.Case, w *world, tg target, k kind, m *pmsg, baseI
 			// the codec normalised the alteration away and the admitted object re-verified
 			r.Count("peer_alteration_normalised_by_codec", 1)
 			e.tally(tg.Name, m.Class, cls, "normalised-by-codec")
-		case len(out.Errors) == 0 && out.Panic == "" && len(m.Entries) <= 1:
+		case len(out.Errors) == 0 && out.Panic == "" && len(m.Entries) <= 1 && m.Fault == 0:
 			c.Violation(sigPrefix+"/"+sigOf(reasons)+"/no-error", "the stream handler reported no error for a message that must be rejected ("+cls+")", witness())
 			e.tally(tg.Name, m.Class, cls, "SILENT")
 		default:
 			r.Count("must_reject_rejected", 1)
 			r.Count("peer_must_reject_rejected", 1)
+			if m.Fault != 0 {
+				r.Count(fmt.Sprintf("peer_ctx_done_mode%d_must_reject_rejected", m.Fault), 1)
+			}
 			e.tally(tg.Name, m.Class, cls, "rejected")
 		}
 
